@@ -1072,14 +1072,24 @@ def op_construct(ctx, st, t):
         ctx.violation("C12.mixed-plate-accepted", "Screen.__init__",
                       f"constructor accepted plate {p!r} with mixed observation status")
     elif kind == "obs_no_mask":
+        # the stored values may hold anything, NaN / 0 / negative included (a whole plate of them, or a few wells):
+        # without a mask every experiment counts as observed, whatever its value
+        obs = s.observations.copy()
+        mode = rnd.choice(["as-is", "as-is", "nan-plate", "nan-some", "zero-plate", "negative-some"])
+        if mode != "as-is":
+            pl = rnd.choice(sorted(set(np.asarray(s.plate_names).tolist())))
+            idx = [i for i, p in enumerate(np.asarray(s.plate_names).tolist()) if p == pl]
+            if mode.endswith("some"):
+                idx = rnd.sample(idx, max(1, len(idx) // 2))
+            obs[idx] = {"nan": float("nan"), "zero": 0.0, "negative": -0.5}[mode.split("-")[0]]
         try:
-            new = Screen(observations=s.observations.copy(), **base)
+            new = Screen(observations=obs.copy(), **base)
         except Exception as e:
-            ctx.violation("C12.ctor-raised", "obs_no_mask", f"constructor with observations and no mask raised {e!r}")
+            ctx.violation("C12.ctor-raised", "obs_no_mask", f"constructor with observations ({mode}) and no mask raised {e!r}")
             return
         if not bool(np.all(new.observation_mask)) or len(new.observation_mask) != n:
-            ctx.violation("C12.obs-without-mask", "Screen.__init__", "observations given without a mask are not all observed")
-        if f64_bits(new.observations).tolist() != f64_bits(s.observations).tolist():
+            ctx.violation("C12.obs-without-mask", "Screen.__init__", f"observations ({mode}) given without a mask are not all observed")
+        if f64_bits(new.observations).tolist() != f64_bits(obs).tolist():
             ctx.violation("C12.obs-without-mask", "values", "observations changed by construction")
     elif kind == "no_obs":
         try:
